@@ -81,7 +81,9 @@ class Info:
 
 
 class _Gen:
-    def __init__(self, rng: random.Random, cfg: Config, index: int):
+    def __init__(self, rng: random.Random, cfg: Config, index: int, tagger=None):
+        self.tagger = tagger
+        self.nnodes = 0
         self.rng = rng
         self.cfg = cfg
         self.index = index
@@ -109,6 +111,10 @@ class _Gen:
     def add(self, node, bound, op):
         from pytato.array import Array
         assert isinstance(node, Array)
+        if self.tagger is not None:
+            # the tagger has its own random source: the program structure is the same for every variant
+            node = self.tagger(node, self.nnodes, op)
+        self.nnodes += 1
         shape = tuple(int(d) for d in node.shape)
         self.info[id(node)] = Info(shape, node.dtype, float(bound))
         self.pool.append(node)
@@ -709,12 +715,13 @@ def _reshape_targets(size, max_rank, cap):
     return sorted(set(out))
 
 
-def generate(seed: int, index: int, cfg: Config | None = None) -> Program:
-    """the index-th program of the stream identified by `seed` (deterministic)"""
+def generate(seed: int, index: int, cfg: Config | None = None, tagger=None) -> Program:
+    """the index-th program of the stream identified by `seed` (deterministic).
+    `tagger(node, ordinal, op) -> node` may attach tags to every node as it is built."""
     cfg = cfg or Config()
     rng = random.Random((seed * 1_000_003 + index) * 7919 + 13)
     for attempt in range(20):
-        g = _Gen(rng, cfg, index)
+        g = _Gen(rng, cfg, index, tagger)
         try:
             return g.run()
         except RecursionError:
